@@ -191,10 +191,19 @@ Definition delete_one (st : state) (n : nat) : state * list nat * res :=
                 strays := strays st; autogc := autogc st |} in
   (st', dang, if memb n (blobs st) then Ok else ENotFound).
 
-(* Store.heldBySurvivor: a predecessor that is not queued and links to r other than as its
-   subject *)
+(* the links of p other than its subject field: content.Successors minus one occurrence of
+   the subject (a node that is the subject AND an entry of p is still an entry) *)
+Fixpoint remove_one (x : nat) (l : list nat) : list nat :=
+  match l with
+  | [] => []
+  | y :: r => if Nat.eqb y x then r else y :: remove_one x r
+  end.
+Definition entries (p : nat) : list nat :=
+  match subject p with Some s => remove_one s (succ p) | None => succ p end.
+
+(* Store.heldBySurvivor: a predecessor that is not queued and lists r among its entries *)
 Definition held (g seen : list nat) (r : nat) : bool :=
-  existsb (fun p => negb (memb p seen) && negb (has_subject r p)) (preds g r).
+  existsb (fun p => negb (memb p seen) && memb r (entries p)) (preds g r).
 
 (* ---------- Store.Delete: the work queue ----------
    [seen] = everything ever queued (the repaired code queues a node once: F4);
